@@ -25,14 +25,20 @@ def predicateSaysNo (m : M) (v : V) : Bool :=
 def cStrTotal : Input → Trace → Bool
   | .describe .., .describe str _ _ _ _ => str.isNone
   | .describe .., _ => false
+  | .ctor .., .ctor str _ _ _ => str.isNone
+  | .ctor .., _ => false
   | _, _ => true
 def cDescribeTotal : Input → Trace → Bool
   | .describe .., .describe _ matched d details _ => matched != .mismatch || (d.isNone && details.isNone)
   | .describe .., _ => false
+  | .ctor .., .ctor _ d details _ => d.isNone && details.isNone
+  | .ctor .., _ => false
   | _, _ => true
 def cErrorStrTotal : Input → Trace → Bool
   | .describe .., .describe _ matched _ _ e => matched != .mismatch || e.isNone
   | .describe .., _ => false
+  | .ctor .., .ctor _ _ _ e => e.isNone
+  | .ctor .., _ => false
   | _, _ => true
 /-- when the documented verdict is "mismatch", `match()` returns a Mismatch (it does not raise while
 building one) -/
